@@ -83,7 +83,8 @@ JP runC16(uint64_t runSeed, int64_t runIdx, const TierCfg &cfg) {
     line->set("seed", hex64(runSeed));
     int maxCells = cfg.c16MaxCells;
     if (rng.chance(0.1)) maxCells *= 6;
-    Op op = gen.c16Op(maxCells);
+    Op op;
+    if (!gen.catalogueC16(runIdx, op)) op = gen.c16Op(maxCells);
     chain.add(op.hash());
     line->set("fn", FN_NAMES[op.fn]);
     line->set("tag", op.tag);
